@@ -7,8 +7,8 @@ use crate::{
     flp::{
         gadgets::{Mul, ParallelSumGadget},
         types::{
-            decode_range_checked_int, decode_result_vec, encode_range_checked_int,
-            parallel_sum_range_checks,
+            check_parallel_sum_lengths, decode_range_checked_int, decode_result_vec,
+            encode_range_checked_int, parallel_sum_range_checks,
         },
         Flp, FlpError, Gadget, Type,
     },
@@ -102,6 +102,7 @@ impl<F: NttFriendlyFieldElement, S: ParallelSumGadget<F, Mul>> L1BoundSum<F, S> 
         if measurement_len_in_bits % chunk_length != 0 {
             gadget_calls += 1;
         }
+        check_parallel_sum_lengths(chunk_length, gadget_calls)?;
 
         Ok(Self {
             measurement_len,
